@@ -303,9 +303,10 @@ func (s *socket) setTransport(transport transports.Transport) {
 
 	transport.Once("error", onError)
 	transport.On("ready", onReady)
-	transport.On("packet", onPacket)
 	transport.On("drain", onDrain)
 	transport.Once("close", onClose)
+	// last: a stream transport starts reading when somebody listens for packets
+	transport.On("packet", onPacket)
 
 	s.cleanupFn.Push(func() {
 		transport.RemoveListener("error", onError)
@@ -445,11 +446,13 @@ func (s *socket) MaybeUpgrade(transport transports.Transport) {
 		}
 	}, s.server.Opts().UpgradeTimeout()))
 
-	transport.On("packet", onPacket)
 	transport.Once("close", onTransportClose)
 	transport.Once("error", onError)
 
 	s.Once("close", onClose)
+
+	// last: a stream transport starts reading when somebody listens for packets
+	transport.On("packet", onPacket)
 }
 
 // Clears listeners and timers associated with current transport.
